@@ -1,5 +1,6 @@
 """C10 - unanswered requests are retried until answered, and only then."""
 import ast
+import re
 
 from ..astutil import dotted, method_call
 from ..cfg import cfg_of, fact_key, implied, nonempty_keys, norm, walk_own
@@ -227,7 +228,16 @@ def check(ctx):
     mv = norm(upd[0].ast.value)
     mdef = {norm(s.targets[0]): norm(s.value) for s in walk_own(lp.ast) if isinstance(s, ast.Assign)}
     mtxt = mdef.get(mv, mv)
-    ctx.inst('R3', ca, 'match-is-prefix', fact_key('%s == %s[0:len(%s)]' % (pv, dvar, pv), True) in keys and mtxt in ('%s[0:len(%s)]' % (dvar, pv), pv),
+    def _through(txt):
+        # a fact about a local that holds the slice is a fact about the slice; `x[:n]` is `x[0:n]`
+        for k_, v_ in mdef.items():
+            if k_.isidentifier() and k_ not in (pv, dvar):
+                txt = re.sub(r'\b%s\b' % re.escape(k_), v_, txt)
+        return txt.replace('[:', '[0:')
+    want_pref = {fact_key('%s == %s[0:len(%s)]' % (pv, dvar, pv), True)[0], fact_key('%s[0:len(%s)] == %s' % (dvar, pv, pv), True)[0]}
+    pref_ok = any(k_[1] is True and (k_[0] in want_pref or _through(k_[0]) in want_pref or fact_key(_through(k_[0]), True)[0] in want_pref) for k_ in keys)
+    mtxt = mtxt.replace('[:', '[0:')
+    ctx.inst('R3', ca, 'match-is-prefix', pref_ok and mtxt in ('%s[0:len(%s)]' % (dvar, pv), pv),
              'a candidate matches iff it equals the leading len(p) items of the packet tuple; guards %s, kept value %s' % (sorted(keys), mtxt))
     lens = [k for k in keys if 'len(%s)' % pv in k[0] and 'len(%s)' % dvar in k[0]]
     ctx.inst('R3', ca, 'match-fits', all(k == fact_key('len(%s) <= len(%s)' % (pv, dvar), True) for k in lens),
